@@ -389,7 +389,7 @@ func c08sequential(steps int) *explore.Scenario {
 
 func init() {
 	register(&Check{
-		ID: "C08",
+		ID: "C08", YieldOnRelease: true,
 		Scenarios: func(tier string) []*explore.Scenario {
 			var cfgs []c08cfg
 			if tier == "quick" {
